@@ -108,6 +108,32 @@ def mutations(item, rng):
     return out
 
 
+def colliding_bases(bases):
+    """Old programs whose stored default will be a literal that looks like something else: a hex default spelled
+    like the name of another option of the program (D, B1 ...), a string default "y" / "n"."""
+    import re
+
+    out = []
+    for base in bases:
+        info = ktree.sym_info(base["prog"])
+        hexnames = [n for n in info if re.fullmatch(r"[0-9A-F]+", n)]
+        p = copy.deepcopy(base["prog"])
+        changed = False
+        for e in ktree.walk(p):
+            if e["k"] != "config" or not e["defaults"] or not e["prompt"]:
+                continue
+            d = e["defaults"][-1]
+            if e["type"] == "hex" and d["v"][0] == "c" and [h for h in hexnames if h != e["name"]] and not e["ranges"]:
+                d["v"] = ["c", [h for h in hexnames if h != e["name"]][0]]
+                changed = True
+            elif e["type"] == "string" and d["v"][0] == "c":
+                d["v"] = ["c", "y" if len(out) % 2 == 0 else "n"]
+                changed = True
+        if changed:
+            out.append(dict(base, prog=p, vars=None))
+    return out
+
+
 def marks(kconf, names, info):
     out = []
     for n in names:
@@ -181,9 +207,11 @@ def main(run):
     if tier == "quick":
         bases = lat[::14] + ktree.generate(run.seed + 2100, 14)
         n_states, n_seq = 3, 2
+        bases += colliding_bases(lat[::6] + ktree.generate(run.seed + 2100, 60))[:12]
     else:
         bases = lat[::2] + ktree.generate(run.seed + 2100, 300)
         n_states, n_seq = 6, 3
+        bases += colliding_bases(bases)
     progs = []
     total = 0
     for bi, base in enumerate(bases):
